@@ -470,7 +470,64 @@ func c07_2(c *core.Ctx, p *core.Prog) {
 							cut[core.Edge{From: b, To: b.Succs[1]}] = true
 						}
 					}
+					// helpers that store the field or fail: every return of the helper that is not preceded by a
+					// store of the field returns a non-nil error; the caller's edge taken on that error is cut
+					storeOrErr := func(h *ssa.Function) bool {
+						if h == nil || len(h.Blocks) == 0 || h == fn || core.FnPkgPath(h) != core.FnPkgPath(fn) {
+							return false
+						}
+						isSt := func(x ssa.Instruction) bool {
+							s, ok := x.(*ssa.Store)
+							if !ok {
+								return false
+							}
+							f2, ok := s.Addr.(*ssa.FieldAddr)
+							return ok && core.FieldVar(f2) == nf.field && !core.IsNilConst(s.Val)
+						}
+						has := false
+						core.EachInstr(h, func(x ssa.Instruction) {
+							if isSt(x) {
+								has = true
+							}
+						})
+						if !has {
+							return false
+						}
+						nilRet := func(x ssa.Instruction) bool {
+							r, ok := x.(*ssa.Return)
+							if !ok {
+								return false
+							}
+							for _, res := range r.Results {
+								if isErrorType(res.Type()) && !core.IsNilConst(res) {
+									return false // an error return
+								}
+							}
+							return true
+						}
+						bad, _ := core.PathQuery{Fn: h, Avoid: isSt, ExitFilter: nilRet, ExitReturnOnly: true}.Exists()
+						return !bad
+					}
+					helperCalls := map[ssa.Instruction]bool{}
+					core.EachInstr(fn, func(x ssa.Instruction) {
+						cl, ok := x.(*ssa.Call)
+						if !ok || !storeOrErr(cl.Call.StaticCallee()) {
+							return
+						}
+						helperCalls[cl] = true
+						for _, b := range fn.Blocks {
+							if fe := failEdge(b); fe >= 0 {
+								iff := core.IfOf(b)
+								if core.DerivesFrom(iff.Cond, func(v ssa.Value) bool { return v == ssa.Value(cl) }) {
+									cut[core.Edge{From: b, To: b.Succs[fe]}] = true
+								}
+							}
+						}
+					})
 					avoid := func(x ssa.Instruction) bool {
+						if helperCalls[x] {
+							return true
+						}
 						s, ok := x.(*ssa.Store)
 						if !ok {
 							return false
